@@ -294,6 +294,9 @@ func (fr *frame) callContract(callee *ssa.Function, ct *Contract, args []Value, 
 	name := FuncName(callee)
 	sub := &frame{fx: fx, fn: callee, name: name, params: fr.bindParams(callee, args), level: fr.level, prefix: fr.prefix, depth: fr.depth, curReach: fr.curReach, selfT: fr.dynSelf}
 	pre := st.Clone()
+	if !ct.Extern && !ct.Trusted && callee.Blocks != nil {
+		fx.note("callee-contract:%s@%d", name, fr.level)
+	}
 	if callee.Signature.Recv() != nil && len(args) > 0 && !ct.Extern && fr.ifaceMods == nil {
 		if _, ok := under(callee.Params[0].Type()).(*types.Pointer); ok {
 			fr.oblige("nil", "recv."+callee.Name(), Ne(args[0].T, "0"), pos)
